@@ -279,3 +279,8 @@ def run(ck, prog, ctx):
                 wrong = [x for x in labs if norm_name(x[0]) != norm_name(vname)]
                 ck.ob("DISPATCH", "combine/" + vname, not wrong, "arm %s of StandardCombiner::combine calls %s" % (vname, (wrong or labs)[0][0]), where=cb.where((wrong or labs)[0][1].line))
         ck.floor("DISPATCH", "StandardCombiner::combine arms", total, 3)
+
+    # ---- the matrix row / column iterators answer each protocol method with the inner iterator's SAME method
+    ck.rule("SIBLING", "an iterator wrapper's next / next_back / len / size_hint delegates to the same method of the inner iterator (DESIGN 3.15)")
+    from engines import check_iterator_delegations
+    check_iterator_delegations(ck, "SIBLING", prog, r"^src/matrix\.rs$")
